@@ -472,10 +472,21 @@ class Gates:
                 info = None
                 if c and DETECT in c["p"]:
                     info = ("feat", _fname(c["p"].rsplit("::", 1)[1]))
+                elif c and (c["p"].endswith("PartialEq::eq") or c["p"].endswith("PartialEq::ne")) and len(t["args"]) == 2:
+                    x_ = self._typeid_of(b, t["args"][0])
+                    y_ = self._typeid_of(b, t["args"][1])
+                    if x_ is not None and y_ is not None:
+                        info = ("tyeq", x_, y_)
+                        if c["p"].endswith("::ne"):
+                            info = ("not", info)
+                elif c and c["local"] and c.get("res", c["id"]) in self.bool_true:
+                    cb_ = self.F.bodies.get(c.get("res", c["id"]))
+                    info = ("sum", c.get("res", c["id"]), tuple(sorted((self.subst_map(cb_, c) or {}).items())))
                 if info is None:
                     return None
                 val = self.edge_state(st, info, True)
-                acc = val if acc is None else acc.join(val)
+                if val is not None:
+                    acc = val if acc is None else acc.join(val)
         if acc is None:
             return None
         names = {n for n, k in b.r["generics"]}
@@ -532,6 +543,14 @@ class Gates:
                 c = F.callee_of(t)
                 if c and DETECT in c["p"]:
                     atoms |= st[1] | {("F", _fname(c["p"].rsplit("::", 1)[1]))}
+                elif c and (c["p"].endswith("PartialEq::eq")) and len(t["args"]) == 2:
+                    x_ = self._typeid_of(b, t["args"][0])
+                    y_ = self._typeid_of(b, t["args"][1])
+                    if x_ is None or y_ is None:
+                        return None
+                    if self._concrete(x_) and not self._concrete(y_):
+                        x_, y_ = y_, x_
+                    atoms |= st[1] | {("In", x_, frozenset([y_]))}
                 else:
                     return None
         return frozenset(atoms) if atoms else None
